@@ -3,3 +3,5 @@
 package sstables
 
 func verifWrapWriters(_ *SSTableStreamWriter) {}
+
+func verifSuperGet() {}
